@@ -29,7 +29,7 @@ impl Scenario for C09 {
         "Seeded lifecycle sessions with 1-3 worker threads x 1-2 channels; the broker closes a chosen channel n with a random code/text at a random time, instead of the reply to its k-th request (call in flight), or right after it, possibly in the middle of a content (header/body frames outstanding) and with consumers attached, while the other channels keep issuing RPCs, publishes and consuming. Oracle: on n the first failing call fails with ServerClosedChannel{n,code,text}, every later call fails, every call invoked after the client's CloseOk(n) was written fails, consumers on n end with that error, exactly one CloseOk(n) is written; on every other channel all calls succeed and the C04/C03 oracles hold; open_channel(Some(n)) issued after the CloseOk succeeds. Non-trivial = the close hit a channel with a call in flight or a consumer attached while >=1 other channel was active; distinct = schedule trace hash.".to_string()
     }
     fn plan(&self, thorough: bool, seed: u64) -> Vec<CaseSpec> {
-        plan_random("C09", "server-channel-close", seed, if thorough { 100_000 } else { 5_000 })
+        plan_random("C09", "server-channel-close", seed, if thorough { 200_000 } else { 10_000 })
     }
     fn run_case(&self, spec: &CaseSpec, text: bool) -> CaseReport {
         let mut cs = spec.stream();
